@@ -548,11 +548,11 @@ def run(ctx):
                        'over-long tokens are covered char-for-char (wrap_nonblank)']
     rng = ctx.rng
     cases = boundary_cases(rng, seps=((1,), (1, 2, 3)) if ctx.budget(0, 1) else ((1, 1, 1, 2),))
-    n = ctx.budget(60, 2500)
+    n = ctx.budget(250, 4000)
     for cls in LINE_CLASSES:
         cases += [random_line(rng, cls) for _ in range(n)]
     ctx.extra['grid'] = 'token of length 1..12 ending at every column 70..90, followed by nothing / a short token / blanks / one more line / two more lines'
-    nf = ctx.budget(60, 2500)
+    nf = ctx.budget(250, 4000)
     fcls = ['restraints', 'aniso', 'sfac', 'fvars', 'free-text', 'edits', 'size', 'sfac-explicit']
     cases += [make_file_case(rng, fcls[i % len(fcls)] if i < 4 * len(fcls) else None) for i in range(nf)]
     for i in range(0, len(cases), 400):
